@@ -78,6 +78,20 @@ CHECKS = {
              "from the final checkpoint: identical digests, zero likelihood calls.",
         note="posterior samples are re-drawn at random by design and excluded from the idempotence digest; runs without a final checkpoint (prior sampling) have nothing "
              "to resume and are counted", ref="DESIGN.md §3 C15"),
+    "C14": dict(
+        cat="exploration", technique="byte-digest comparison of whole runs executed in separate processes under varied hash seeds, pool sizes, user pools and chunk sizes",
+        text="6 configurations (thorough: 12 x 3 seeds) of both samplers on an exactly-rounded likelihood are each executed as baseline, in other processes with four "
+             "different PYTHONHASHSEED values, twice in one process, with n_pool 1-4 and content-keyed delays in the workers, a user-supplied fork pool, chunk sizes 1/7/huge, "
+             "parallel prior and pool+chunks; SHA-256 of nested samples, weights, repr(logZ), insertion indices and the evaluation counter must equal the baseline's.",
+        note="torch determinism assumed for pytorch_threads=1 (nessai default); only the fork start method; disable_vectorisation is outside the property's list and not compared",
+        ref="DESIGN.md §3 C14"),
+    "C17": dict(
+        cat="exploration", technique="wrapper capturing the threshold method's own cut + clamping oracle from the property text on generated live sets; in-situ monitor on real INS runs",
+        text="3000 (thorough 1e5) generated live sets (sizes 1-5000, six weight classes incl. -inf, tied likelihoods) x both methods with random parameters x min_samples, "
+             "min_remove, max_samples, nlive, draw_constant on a real un-run sampler: the returned threshold must be the live likelihood at the clamped index; weighted_quantile "
+             "is checked for monotonicity, range and (equal weights) the order-statistic window; every iteration of real runs checks threshold membership and the "
+             "min_samples floor of each training set.",
+        note="configurations that cannot all be honoured (min_remove >= size, max_samples < min_samples + nlive, all weights -inf) are excluded and counted", ref="DESIGN.md §3 C17"),
 }
 
 PENDING_REASON = "check designed in DESIGN.md but not yet built/calibrated in this session; not claimed until its monitor is silent on the unchanged tree"
